@@ -247,3 +247,17 @@ theorem eval_bgp_perm {D : Dataset} {g : Graph} {σ : Row n} {l1 l2 : List TP} (
   exact bgp_perm (h.map _) _
 
 end RV.C04
+
+namespace RV.C04
+open Spec Model
+variable {n : Nat}
+
+@[simp] theorem Row.restrict_empty (pv : List Nat) : (Row.empty : Row n).restrict pv = Row.empty := by
+  apply Row.ext_get; intro v; rw [Row.get_restrict]; simp
+
+theorem bindGraphVar_eq_matchOne (v : Nat) (name : Term) (μ : Row n) :
+    bindGraphVar v name μ = matchOne μ (.var v) name := by
+  simp only [bindGraphVar, matchOne]
+  cases μ.get v <;> rfl
+
+end RV.C04
